@@ -310,6 +310,59 @@ def run(ctx):
             ctx.ob("C09.R5e", L.short(fn), ok, fn.loc,
                    "release() must unregister only when it still owns a slot and forget the slot afterwards (at most once)")
 
+    # ---------------------------------------------------------------- R6 a region is opened on the caller's own slot, which exists
+    n6 = 0
+    for fn in fb.find(pred=lambda f: f.record == "babylon::Epoch" and f.name in ("lock", "unlock") and len(f.params) == 0 and f.has_cfg()):
+        n6 += 1
+        ig = IG(fn, inline=lambda a, b, c: False)
+        live = ig.live_nodes()
+        tid = [n for n in ig.ev_nodes() if n.id in live and n.ev["e"] == "call" and re.search(r"ThreadId(Impl<.*>)?::current_thread_id$", n.ev.get("callee", "") or "")]
+        inner = [n for n in L.call_nodes(ig, name=fn.name, live=live) if len(n.ev.get("args", [])) == 1]
+        ens = list(L.call_nodes(ig, name="ensure", live=live))
+
+        def from_tid(d):
+            return L.deep_find(ig, d, lambda x: x.get("k") == "e" and ig.ev_of(x) in tid) is not None
+        ok = len(tid) == 1 and len(inner) == 1 and from_tid(ig.rarg(inner[0], 0)) and \
+            ("Epoch" in (tid[0].ev.get("targs") or tid[0].ev.get("callee", "") + "<babylon::Epoch>"))
+        if fn.name == "lock":
+            ok = ok and len(ens) == 1 and from_tid(ig.rarg(ens[0], 0)) and ig.dominated_by(inner[0], ens)
+        ctx.ob("C09.R6a", L.short(fn), ok, fn.loc,
+               "the thread-local %s must work on the slot indexed by this thread's id (and lock must make sure the slot exists first): "
+               "a region opened on another slot is invisible to low_water_mark" % fn.name, site="Epoch::%s@own-slot" % fn.name)
+    for fn in fb.find(pred=lambda f: f.record == "babylon::Epoch::Accessor" and f.name in ("lock", "unlock") and f.has_cfg()):
+        n6 += 1
+        ig = IG(fn, inline=lambda a, b, c: False)
+        live = ig.live_nodes()
+        inner = [n for n in L.call_nodes(ig, name=fn.name, live=live)]
+        ok = len(inner) == 1 and strip_cast(ig.rthis(inner[0])).get("n") == "_epoch" and len(inner[0].ev.get("args", [])) == 1 and \
+            strip_cast(ig.rarg(inner[0], 0)).get("n") == "_index"
+        ctx.ob("C09.R6b", L.short(fn), ok, fn.loc, "an accessor must open / close the region on its own slot of its own epoch",
+               site="Accessor::%s@own-slot" % fn.name)
+    for fn in fb.find(pred=lambda f: f.record == "babylon::Epoch" and f.name == "create_accessor" and f.has_cfg()):
+        n6 += 1
+        ig = IG(fn, inline=lambda a, b, c: False)
+        live = ig.live_nodes()
+        al = list(L.call_nodes(ig, name="allocate", live=live))
+        ens = list(L.call_nodes(ig, name="ensure", live=live))
+        rets = [n for n in ig.ev_nodes() if n.id in live and n.ev["e"] == "ret"]
+
+        def from_al(d):
+            return L.deep_find(ig, d, lambda x: x.get("k") == "e" and ig.ev_of(x) in al) is not None
+        def from_end(d):
+            # ensure(n) makes [0, n] addressable: the count of ids ever allocated, read after the allocation, covers the index too
+            return L.deep_find(ig, d, lambda x: x.get("k") == "e" and ig.ev_of(x) is not None and
+                               re.search(r"IdAllocator<.*>::end$", ig.ev_of(x).ev.get("callee", "") or "") is not None and
+                               all(ig.dominated_by(ig.ev_of(x), [a_]) for a_ in al), through_args=True) is not None
+        ok = len(al) == 1 and len(ens) == 1 and (from_al(ig.rarg(ens[0], 0)) or from_end(ig.rarg(ens[0], 0))) and bool(rets) and all(ig.dominated_by(r_, ens) for r_ in rets)
+        for r_ in rets:
+            c_ = ig.ev_of(strip_cast(ig.resolve(r_.ev.get("v"), r_.frame)))
+            ok = ok and c_ is not None and c_.ev["e"] == "ctor" and len(c_.ev.get("args", [])) == 2 and \
+                strip_cast(ig.rarg(c_, 0)).get("k") == "this" and from_al(ig.rarg(c_, 1))
+        ctx.ob("C09.R6c", L.short(fn), ok, fn.loc,
+               "create_accessor must make sure the slot of the allocated index exists before it hands out an accessor for exactly "
+               "(this epoch, that index)", site="create_accessor@slot-exists")
+    ctx.floor("C09.R6", n6, 5, "slot index plumbing of lock / unlock / create_accessor")
+
 
 SWEEP = ["concurrent/test_epoch.cpp"]
 
